@@ -26,6 +26,7 @@ CHRONO_ASSUMPTIONS = [
     "an eligible day exists in the search direction inside chrono's range (has_fwd/has_bwd preconditions): without it the real loops end in chrono's overflow panic; implied by a finite holiday set and a working weekday inside the range",
 ]
 
+DEP_UNITS_NOTE = "dependency units (`dep_units` in vxlib/config.py): the units holding the contracts of the functions this property's code calls are run as part of this check and EVERY obligation in them counts for this property, whatever property it is tagged for - a change inside a callee fails the callee's own obligation, and that obligation is run here"
 IDENTITY_RULE_GENERAL = "decision rule for functions marked `identity` in the contracts (arithmetic identities: operator bodies, elementary functions, closed forms, basis functions, solver kernels): when one of their obligations stops verifying after a change it is reported as a violation only if the probe of the real code against its independent oracle finds a discrepancy; if the probe ran and found none the run is undecided (exit 2) - a nonlinear identity the solver cannot re-derive after an algebraic rearrangement is not evidence of a defect (DESIGN 4.1)"
 
 DUAL_ASSUMPTIONS = [
@@ -103,6 +104,7 @@ CHECKS = {
     },
     "C17": {
         "units": ["dual_core", "dual_ops"],
+        "dep_units": ["dual_core", "dual_ops"],
         "level": "proof",
         "assumptions": DUAL_ASSUMPTIONS,
         "uncovered": [
@@ -112,24 +114,28 @@ CHECKS = {
     },
     "C01": {
         "units": ["dual_core", "dual_ops"],
+        "dep_units": ["dual_core", "dual_ops"],
         "level": "proof",
         "assumptions": DUAL_ASSUMPTIONS + AD_ASSUMPTIONS,
         "uncovered": [],
     },
     "C02": {
         "units": ["dual_core", "dual_ops"],
+        "dep_units": ["dual_core", "dual_ops"],
         "level": "proof",
         "assumptions": DUAL_ASSUMPTIONS + AD_ASSUMPTIONS,
         "uncovered": [],
     },
     "C03": {
         "units": ["dual_core", "dual_ops"],
+        "dep_units": ["dual_core", "dual_ops"],
         "level": "proof",
         "assumptions": DUAL_ASSUMPTIONS,
         "uncovered": [],
     },
     "C18": {
         "units": ["dual_ops"],
+        "dep_units": ["dual_core", "dual_ops"],
         "level": "proof",
         "assumptions": DUAL_ASSUMPTIONS + AD_ASSUMPTIONS + [
             "PartialEq / PartialOrd of Number are verified as free functions (the trait impls only forward to them) because core's comparison traits cannot carry the 'not a Dual/Dual2 mix' precondition",
@@ -142,6 +148,7 @@ CHECKS = {
     },
     "C19": {
         "units": ["dual_ops"],
+        "dep_units": ["dual_core", "dual_ops"],
         "level": "proof",
         "assumptions": DUAL_ASSUMPTIONS + [
             "x % y on floats is x - trunc(x / y) * y with trunc an uninterpreted real function (no property of trunc is needed: the contract states the remainder rule in terms of the same trunc)",
@@ -154,6 +161,7 @@ CHECKS = {
     },
     "C11": {
         "units": ["curves"],
+        "dep_units": ["dual_core", "dual_ops"],
         "level": "proof",
         "assumptions": DUAL_ASSUMPTIONS + [
             "R5: generic functions are verified as monomorphic copies (index_left at i64, the closed forms at f64/Dual/Dual2), the instantiations the crate uses",
@@ -165,6 +173,7 @@ CHECKS = {
     },
     "C12": {
         "units": ["curves"],
+        "dep_units": ["dual_core", "dual_ops"],
         "level": "proof",
         "assumptions": DUAL_ASSUMPTIONS + AD_ASSUMPTIONS,
         "uncovered": CURVE_UNCOVERED + [
@@ -183,6 +192,7 @@ CHECKS = {
     },
     "C06": {
         "units": ["calendars"],
+        "dep_units": ["dateroll"],
         "kani": {"quick": ["chrono_view_is_days_from_civil", "chrono_from_ymd_validity", "chrono_weekday_try_from_u8"], "thorough": ["chrono_view_is_days_from_civil", "chrono_from_ymd_validity", "chrono_add_days", "chrono_sub_days", "chrono_weekday_try_from_u8"]},
         "level": "proof",
         "assumptions": CHRONO_ASSUMPTIONS + [
@@ -199,6 +209,7 @@ CHECKS = {
     },
     "C09": {
         "units": ["fx"],
+        "dep_units": ["dual_core", "dual_ops"],
         "extra": "probe_engine",
         "probe": {
             "func": "create_fx_array", "name": "c09::triangulation_probe (bounded)", "where": "rust/fx/rates/mod.rs",
@@ -222,6 +233,7 @@ CHECKS = {
     },
     "C10": {
         "units": ["fx", "dual_core", "dual_ops"],
+        "dep_units": ["dual_core", "dual_ops"],
         "level": "proof",
         "assumptions": CHRONO_ASSUMPTIONS + DUAL_ASSUMPTIONS + [
             "create_fx_array as CALLED by try_new / update / set_ad_order is an ASSUMED deterministic function fx_build(currencies, quotes, order): it fails or succeeds independently of the order, returns a square matrix of the requested order, and its values do not depend on the order (axiom_fx_build)",
@@ -237,6 +249,7 @@ CHECKS = {
     },
     "C13": {
         "units": ["linalg", "linalg_f64"],
+        "dep_units": ["dual_core", "dual_ops"],
         "kani": {"quick": ["row_swap_swaps_exactly_two_rows", "el_swap_swaps_exactly_two_elements", "argabsmax_is_an_index_of_largest_abs"], "thorough": ["row_swap_swaps_exactly_two_rows", "el_swap_swaps_exactly_two_elements", "argabsmax_is_an_index_of_largest_abs"]},
         "level": "proof",
         "assumptions": [
@@ -254,7 +267,9 @@ CHECKS = {
         ],
     },
     "C15": {
-        "units": ["ppspline", "splines_dual"],
+        "units": ["ppspline", "splines_dual", "linalg_f64"],
+        "dep_units": ["dual_core", "dual_ops", "linalg", "linalg_f64", "splines"],
+        "kani": {"quick": ["row_swap_swaps_exactly_two_rows", "el_swap_swaps_exactly_two_elements", "argabsmax_is_an_index_of_largest_abs"], "thorough": ["row_swap_swaps_exactly_two_rows", "el_swap_swaps_exactly_two_elements", "argabsmax_is_an_index_of_largest_abs"]},
         "extra": "probe_engine",
         "probe": {
             "func": "csolve", "name": "c15::solved_spline_probe (bounded)", "where": "rust/splines/spline.rs",
